@@ -3,6 +3,7 @@
 mod common;
 mod dev;
 mod props;
+mod refsh;
 mod vsh;
 
 use common::Tier;
@@ -47,6 +48,7 @@ fn main() {
         let case = &v["case"];
         let code = match id.as_str() {
             "C12" => props::c12::replay(case),
+            "C13" => props::c13::replay(case),
             _ => {
                 eprintln!("no replay for {id}");
                 2
@@ -56,6 +58,7 @@ fn main() {
     }
     let code = match id.as_str() {
         "C12" => props::c12::run(tier),
+        "C13" => props::c13::run(tier),
         _ => {
             eprintln!("unknown property {id}");
             2
